@@ -433,6 +433,23 @@ func (e *Exec) cellByName(name string) (Value, types.Type, bool) {
 	if n == 1 {
 		return e.regs[found], derefType(found.Type()), true
 	}
+	if n > 1 && e.curLoop != nil {
+		// several variables of that name: inside a loop contract, the one the loop header touches
+		for _, ins := range e.curLoop.Instrs {
+			var a *ssa.Alloc
+			switch x := ins.(type) {
+			case *ssa.UnOp:
+				a, _ = x.X.(*ssa.Alloc)
+			case *ssa.Store:
+				a, _ = x.Addr.(*ssa.Alloc)
+			}
+			if a != nil && a.Comment == name {
+				if _, have := e.regs[a]; have {
+					return e.regs[a], derefType(a.Type()), true
+				}
+			}
+		}
+	}
 	if n > 1 {
 		panic(unsupportedErr{fmt.Sprintf("spec: variable name %q is ambiguous in %s", name, e.fn.Name())})
 	}
@@ -703,7 +720,7 @@ func (c *SpecCtx) callExpr(x *ast.CallExpr, sn *SpecNode) (Value, types.Type) {
 			case *ArrayV:
 				return e.idx(y.N), types.Typ[types.Int]
 			case *Node:
-				if y.Sort == "Str" {
+				if isStrSort(y.Sort) {
 					return e.strLen(y), types.Typ[types.Int]
 				}
 				if mt, ok := t.Underlying().(*types.Map); ok {
@@ -816,6 +833,19 @@ func (c *SpecCtx) callExpr(x *ast.CallExpr, sn *SpecNode) (Value, types.Type) {
 				}
 			}
 			return acc, rt
+		case "strContains", "strPrefix", "strSuffix":
+			// strContains(s, sub) / strPrefix(s, prefix) / strSuffix(s, suffix)
+			av, _ := c.expr(x.Args[0], sn)
+			bv, _ := c.expr(x.Args[1], sn)
+			a, b := av.(*Node), bv.(*Node)
+			switch id.Name {
+			case "strContains":
+				return strPredicate("str.contains", "uf_strContains", a, b), types.Typ[types.Bool]
+			case "strPrefix":
+				return strPredicate("str.prefixof", "uf_strPrefix", b, a), types.Typ[types.Bool]
+			default:
+				return strPredicate("str.suffixof", "uf_strSuffix", b, a), types.Typ[types.Bool]
+			}
 		case "contents":
 			// contents(b): the backing array of slice b as a ghost byte sequence (index = b.off + i)
 			v, t := c.expr(x.Args[0], sn)
@@ -897,6 +927,9 @@ func (c *SpecCtx) callExpr(x *ast.CallExpr, sn *SpecNode) (Value, types.Type) {
 			rt := c.resolveTypeName(uf.Ret)
 			rs := e.mode.leafSort(rt)
 			fn := fmt.Sprintf("uf_%s_%d", uf.Name, int(e.mode))
+			if nativeStrings {
+				fn += "_s"
+			}
 			TS.DeclFun(fn, sorts, rs)
 			return App(fn, rs, args...), rt
 		}
